@@ -512,11 +512,16 @@ def apply_prefix(vic):
             break
     if vic.prefix == "ctrl_stopped" and not vic.raised:
         peer_stops_critical_streams(vic)
+    elif vic.prefix == "ctrl_stopped_late" and not vic.raised:
+        # ... the same frames, but the StopSendingReceived events are still queued in the transport when the HTTP layer
+        # handles what the peer placed on its streams *before* them (STREAM frames earlier in the same packet, or an
+        # application that drains events after several datagrams): the sending halves are already reset
+        peer_stops_critical_streams(vic, hold=True)
     vic.prefix_events = vic.http_events
     vic.prefix_closed = bool(vic.close_calls)
 
 
-def peer_stops_critical_streams(vic):
+def peer_stops_critical_streams(vic, hold=False):
     """The peer sends STOP_SENDING for the three unidirectional streams the victim's HTTP/3 layer writes to (control, QPACK
     encoder, QPACK decoder): a legal transport frame for a stream it receives on.  The frame goes through the
     connection's real handler (which resets the sending half and queues StopSendingReceived); the event is fed to the
@@ -538,7 +543,7 @@ def peer_stops_critical_streams(vic):
         rc = QuicReceiveContext(epoch=tls.Epoch.ONE_RTT, host_cid=quic.host_cid, network_path=quic._network_paths[0],
                                 quic_logger_frames=[], time=vic.now, version=quic._version)
         quic._handle_stop_sending_frame(rc, 0x05, Buffer(data=G.V(sid) + G.V(0x10C)))
-        while True:
+        while not hold:
             ev = quic.next_event()
             if ev is None:
                 break
@@ -622,7 +627,7 @@ def exec_case(base, wt, prefix, case):
         v["signature"] += ":in-valid-prefix"
     closed_ok = prefix == "ctrl_stopped" and vic.prefix_closed and vic.close_calls[0][0] == 0x104  # H3_CLOSED_CRITICAL_STREAM
     prefix_ok = not ((vic.prefix_closed and not closed_ok) or vic.raised or (
-        prefix != "fresh" and vic.prefix_events == 0 and prefix not in ("ctrl", "req_blocked", "ctrl_stopped")))
+        prefix != "fresh" and vic.prefix_events == 0 and prefix not in ("ctrl", "req_blocked", "ctrl_stopped", "ctrl_stopped_late")))
     ctx = vic.ctx
     base_events = vic.http_events
     segs, label = G.build(case, ctx) if case is not None else ([], ("-", "-"))
@@ -632,6 +637,15 @@ def exec_case(base, wt, prefix, case):
             if slot != "dgram" and slot in ctx.finished:
                 continue  # a composition placed data after FIN: not deliverable by a transport
             if not vic.feed(slot, data, fin):
+                break
+    if prefix == "ctrl_stopped_late" and not vic.raised:
+        # the held-back StopSendingReceived events reach the HTTP layer now
+        while True:
+            ev = vic.quic.next_event()
+            if ev is None:
+                break
+            vic.count("transport_events_fed_after_stop_sending")
+            if not vic.feed("event", ev, False):
                 break
     views = vic.drive()
     closed = vic.check_close(views)
